@@ -2,13 +2,20 @@
 from lib import deductive
 from contracts import registry
 
+def _lean_status():
+    import os
+    p = os.path.join(os.path.dirname(os.path.dirname(os.path.abspath(__file__))), 'evidence', 'lean_status.txt')
+    try: return open(p).read().strip()
+    except OSError: return 'lean status unknown on this run (setup.sh not run)'
+
+
 ASSUME = {
  'A1': 'A1: the coefficient recurrences of contracts/spec.py (Griewank-Walther Tab. 13.1/13.2) are the Taylor coefficients of f(x(t)); audited by audits/spec_vs_sympy.py (sympy series, order <= 6) in the thorough tier',
  'A3': 'A3: NumPy ufuncs / axis-0 reductions act independently per trailing (batch) index; basic indexing returns views; slice semantics as modelled in vc/engine.py (audited on every run by the native stand-in on the same functions)',
  'A4': 'A4: numpy.sum(..., out=v) and a[d] = expr evaluate the right-hand side completely before storing',
  'A5': 'A5: external scalar functions (numpy.exp, scipy.special.*, numpy.linalg.inv/solve, LAPACK factorizations) are the mathematical functions (uninterpreted symbols in the VCs)',
  'A6': 'A6: float64/complex128 arithmetic treated as exact real arithmetic in all proofs; native comparisons use relative tolerance 1e-8',
- 'A8': 'A8: Sum lemma schemas (empty, peel-first/last, shift/reversal congruence, split, linearity) -- machine-checked in lean/SumLemmas.lean by setup.sh',
+ 'A8': 'A8: Sum lemma schemas (empty, peel-first/last, shift/reversal congruence, zero, split, linearity, negation) are proved in lean/SumLemmas.lean (Lean 4 + Mathlib, checked by setup.sh; status: ' + _lean_status() + '); what remains trusted is that vc/engine.py instantiates exactly these schemas',
  'A9': 'A9: the home-made symbolic executor (vc/engine.py) implements the Python/NumPy subset faithfully; audited by native execution of every function under contract against the independent spec interpreter, and by the mutation self-test',
  'A10': 'A10: pytpcore is None and algopy is imported from /repo (asserted natively on every run)',
  'A11': 'A11: z3 is sound',
